@@ -107,6 +107,12 @@ def code_for_string_token(name, value, location):
     assert len(value) >= 2
     left_quote = value[0]
     right_quote = value[-1]
+    if left_quote not in "\"'":
+        # For example u'x' or b'x'.
+        raise errors.InterfaceError(
+            "text for %s must be enclosed in quotes without any prefix but is: %s" % (name, _compat.text_repr(value)),
+            location,
+        )
     assert left_quote in "\"'", "left_quote=%r" % left_quote
     assert right_quote in "\"'", "right_quote=%r" % right_quote
 
